@@ -1095,10 +1095,10 @@ LABEL:
 					panic(syntaxError(tok.pos, "unexpected %s, expecting semicolon or newline or )", tok))
 				}
 				if c, ok := prevNode.(*ast.Const); ok {
-					if c.Type == nil {
-						c.Type = astutil.CloneExpression(prevConstType)
-					}
 					if len(c.Rhs) == 0 {
+						if c.Type == nil {
+							c.Type = astutil.CloneExpression(prevConstType)
+						}
 						c.Rhs = make([]ast.Expression, len(prevConstValues))
 						for i := range prevConstValues {
 							c.Rhs[i] = astutil.CloneExpression(prevConstValues[i])
